@@ -685,7 +685,11 @@ func (r *Reconciler) reconcileApply(ctx context.Context, proposal *configapi.Pro
 		log.Debugf("Sending SetRequest %+v", setRequest)
 		setResponse, err := conn.Set(ctx, setRequest)
 		if err != nil {
+			// The southbound client returns typed errors (errors.FromGRPC), not gRPC statuses
 			code := status.Code(err)
+			if _, ok := err.(*errors.TypedError); ok {
+				code = errors.Status(err).Code()
+			}
 			switch code {
 			case codes.Unavailable, codes.Canceled, codes.DeadlineExceeded:
 				log.Errorf("Failed sending SetRequest %+v", setRequest, err)
